@@ -13,7 +13,7 @@ MODEL_OPS = 'ConvDirM.conv_dir1_m / conv_dir2_m (conv_sed: read_nu_order, Convol
 RULE = ('packages with 1-8 models, 1-5 apertures, 5-24 frequencies, every SED stored in its own spectral order, SED file names whose sorted order differs from the '
         'parameter-table order, a permuted parameter table, 1-3 filters at once (either storage order, normalised or not, inside / partially overlapping / wider than '
         'the SED range), written as a per-file package and as a cube package; convolve_model_dir on both; every row compared by name with the model and v1 with v2; '
-        'then one source fitted from the v1 package and from the v2 package with memmap on and off. non-trivial = >= 2 models whose file order differs from the table order.')
+        'every fourth package is a per-file package whose SEDs are on different grids (same length and end points with other interior points, or shorter; no cube form); then one source fitted from the v1 package and from the v2 package with memmap on and off. non-trivial = >= 2 models whose file order differs from the table order.')
 EXHAUSTIVE = {'quick': False, 'thorough': False}
 ASSUMPTIONS = ['FITS is a lossless store (exercised); the cube re-derives frequencies from stored wavelengths (1 ulp), compared with relative tolerance 1e-9 of the largest flux',
                'fits from memory-mapped (float32) cube packages are compared with tolerance 1e-4']
@@ -24,6 +24,8 @@ def generate(tier, seed):
     cases = []
     for k in range(60 if tier == 'quick' else 600):
         pkg = pkgcase.gen_package(rng)
+        if k % 4 == 3 and len(pkg['names']) >= 2:
+            pkgcase.own_grids(rng, pkg)       # per-file package whose SEDs are not all on one grid (no cube form exists)
         nb = len(pkg['filters'])
         src = fitcase.gen_source(rng, nb, flags=[1] * nb if nb < 3 else None)
         ext = fitcase.gen_ext(rng, [f['wav'] for f in pkg['filters']])
@@ -54,6 +56,8 @@ def impl(case):
             out['fit_v1'] = _fit(d1, pkg, case)
         except Exception as e:
             out['fit_v1'] = {'exc': '%s: %s' % (type(e).__name__, e)}
+    if pkg.get('v1only'):
+        return out
     with tempfile.TemporaryDirectory() as d2:
         pkgcase.write_v2(d2, pkg)
         convolve_model_dir(d2, pkgcase.make_filters(pkg))
@@ -74,7 +78,7 @@ def model_requests(case):
     par = [pkgcase.key(n) for n in pkg['par_order']]
     for k, f in enumerate(pkg['filters']):
         reqs.append(('conv_dir1', [pkgcase.filt_pts(pkg, k), f['normalize'], files, par]))
-        reqs.append(('conv_dir2', [pkgcase.filt_pts(pkg, k), f['normalize'], cube, par]))
+        reqs.append(('conv_dir2', [pkgcase.filt_pts(pkg, k), f['normalize'], cube, par]) if not pkg.get('v1only') else ('conv_dir1', [pkgcase.filt_pts(pkg, k), f['normalize'], files, par]))
     return reqs
 
 
@@ -100,7 +104,7 @@ def _exact_row(pkg, k, n, norm_resp):
     import c06
     f = pkg['filters'][k]
     pts = sorted((F(a), F(b)) for a, b in zip(f['nu'], norm_resp))
-    snu = [F(x) for x in pkg['nu']]
+    snu = [F(x) for x in pkg['seds'][n].get('nu', pkg['nu'])]
     fmin, fmax = pts[0][0], pts[-1][0]
     R = []
     m = len(snu)
@@ -121,6 +125,9 @@ def judge(case, im, mo):
     if any(isinstance(m, tuple) for m in mo):
         return dict(disagree=['driver %r' % ([m for m in mo if isinstance(m, tuple)][:1],)], fail=[], nontrivial=False)
     disagree, fail = [], []
+    if pkg.get('v1only'):       # no cube form: the per-file results stand in for both columns of the comparison below
+        im = dict(im, v2=im['v1'], fit_v2_True=im['fit_v1'], fit_v2_False=im['fit_v1'])
+        tags.append('per-SED-grids')
     scale = max(max(max(row) for row in sd['flux']) for sd in pkg['seds'].values())
     for k, f in enumerate(pkg['filters']):
         m1, m2 = mo[2 * k], mo[2 * k + 1]
@@ -132,9 +139,10 @@ def judge(case, im, mo):
         tol = rmax * Fraction(1, 10 ** 8)
         v1, v2 = im['v1'][f['name']], im['v2'][f['name']]
         disagree += _cmp_table('per-file format, filter %s' % f['name'], v1, rows1, pkg, tol, pkg['par_order'])
-        disagree += _cmp_table('cube format, filter %s' % f['name'], v2, rows2, pkg, tol, pkg['par_order'])
+        if not pkg.get('v1only'):
+            disagree += _cmp_table('cube format, filter %s' % f['name'], v2, rows2, pkg, tol, pkg['par_order'])
         # ---- property clauses on the implementation's own files
-        for tag, t in (('per-file', v1), ('cube', v2)):
+        for tag, t in (('per-file', v1), ('cube', v2))[:1 if pkg.get('v1only') else 2]:
             if t['names'] != pkg['par_order']:
                 fail.append('order: %s format rows %r do not follow the parameter-table order %r' % (tag, t['names'], pkg['par_order']))
             if t['filtwav'] is None or abs(t['filtwav'] - f['wav']) > 1e-9 * f['wav']:
@@ -150,7 +158,7 @@ def judge(case, im, mo):
             norm = [F(b) / tot for b in f['resp']] if f['normalize'] else [F(b) for b in f['resp']]
             for i, n in enumerate(pkg['par_order']):
                 wf, wv = _exact_row(pkg, k, n, norm)
-                for tag, t in (('per-file', v1), ('cube', v2)):
+                for tag, t in (('per-file', v1), ('cube', v2))[:1 if pkg.get('v1only') else 2]:
                     for a in range(len(wf)):
                         if abs(F(t['flux'][i][a]) - wf[a]) > tol:
                             fail.append('rows: %s format, row %s aperture %d holds flux %r; SED %s convolved with %s gives %r' % (tag, n, a, t['flux'][i][a], n, f['name'], float(wf[a])))
